@@ -250,7 +250,8 @@ class Labware:
             List of composition dictionaries ({ name : relative amount })
         """
         wells = np.array(wells).flatten("F")
-        volumes = np.array(volumes).flatten("F")
+        # double precision, also when the volumes come as a float32 array (the mixing below inherits their precision)
+        volumes = np.array(volumes, dtype=float).flatten("F")
         if len(volumes) == 1:
             volumes = np.repeat(volumes, len(wells))
         assert len(volumes) == len(wells), "Number of volumes must equal the number of wells"
